@@ -148,6 +148,21 @@ VARIANTS = [
     V( 'symbol-casefold', DEVICE, "tag_canonical = tag.lower()", "tag_canonical		= tag.casefold()", fires=[ 'T-SYMBOL' ] ),
     V( 'prims-input-not-appended', AUTO, "thing.append( inp )", "pass", fires=[ 'G-PRIMS' ] ),
     V( 'resolve-unprotected-in-mr', DEVICE, "target = self.route( data, fail=self.ROUTE_RAISE )", "target		= self.route( data, fail=self.ROUTE_RAISE )", silent=[ 'S-RESOLVE' ] ),
+    V( 'fowidth-assert-precedence', DEVICE, "assert data.service == ( cls.FWD_OPLG_REQ if large else cls.FWD_OPEN_REQ ), \\", "assert data.service == cls.FWD_OPLG_REQ if large else cls.FWD_OPEN_REQ, \\", fires=[ 'K-FOWIDTH' ], why='defect X' ),
+    V( 'fowidth-flags-not-unified', DEVICE, "T_O.large = O_T.large = large", "T_O.large		= large", fires=[ 'K-FOWIDTH' ] ),
+    V( 'fowidth-service-forced-small', DEVICE, "data.service = cls.FWD_OPLG_REQ if large else cls.FWD_OPEN_REQ", "data.service	= cls.FWD_OPEN_REQ", silent=[ 'K-FOWIDTH' ], why='a large request without a service code is then refused by the assertion - nothing inconsistent is emitted' ),
+    V( 'fowidth-check-as-raise', DEVICE, "assert data.service == ( cls.FWD_OPLG_REQ if large else cls.FWD_OPEN_REQ ), \\\n \"Forward Open service code incompatible with T_O or O_T connection size\"", "if data.service != ( cls.FWD_OPLG_REQ if large else cls.FWD_OPEN_REQ ):\n                raise AssertionError( \"Forward Open service code incompatible with T_O or O_T connection size\" )", silent=[ 'K-FOWIDTH' ] ),
+    V( 'separators-only-at-loop-head', TNET, "# Still between TNET messages?  Ignored symbols may arrive in a later chunk than the end of the last message\n while ignore and source.sent == begun and source.peek() and source.peek() in ignore:\n next( source )\n begun = source.sent", "pass", fires=[ 'P-SEPARATORS' ], why='defect Y' ),
+    V( 'separators-unguarded-discard', TNET, "while ignore and source.sent == begun and source.peek() and source.peek() in ignore:", "while ignore and source.peek() and source.peek() in ignore:", fires=[ 'P-SEPARATORS' ] ),
+    V( 'separators-marker-not-refreshed', TNET, "next( source )\n begun = source.sent\n", "next( source )\n", fires=[ 'P-SEPARATORS' ] ),
+    V( 'separators-marker-is-zero', TNET, "begun = source.sent # No symbols of the current TNET string consumed yet", "begun			= 0", fires=[ 'P-SEPARATORS' ] ),
+    V( 'separators-if-guard-form', TNET, "while ignore and source.sent == begun and source.peek() and source.peek() in ignore:\n next( source )\n begun = source.sent", "if ignore and begun == source.sent:\n                    while source.peek() and source.peek() in ignore:\n                        next( source )\n                    begun	= source.sent", silent=[ 'P-SEPARATORS' ] ),
+    V( 'gateway-kept-when-close-fails', GETATTR, "try:\n self.gateway.close()\n except Exception as cexc:\n # eg. the Forward Close of a connected gateway, on a connection that is already dead\n log.info( \"Closing EtherNet/IP CIP gateway %s failed: %s\", self.gateway, cexc )", "self.gateway.close()", fires=[ 'P-GATEWAY' ], why='defect Z' ),
+    V( 'gateway-forgotten-in-finally', GETATTR, "try:\n self.gateway.close()\n except Exception as cexc:\n # eg. the Forward Close of a connected gateway, on a connection that is already dead\n log.info( \"Closing EtherNet/IP CIP gateway %s failed: %s\", self.gateway, cexc )", "try:\n                self.gateway.close()\n            finally:\n                self.gateway	= None", silent=[ 'P-GATEWAY' ] ),
+    V( 'client-engine-reentered-without-input', CLIENT, "# re-entered without input; it awaits a symbol, and would detect no progress.\n return None", "if self.engine is None:\n                        return None", fires=[ 'P-ACT' ], why='defect AB' ),
+    V( 'client-nothing-received-early-return', CLIENT, "if rcvd is not None:\n # Some input (or EOF); source is empty; chain the input and drop back into", "if rcvd is None:\n                    return None\n                if rcvd is not None:\n                    # Some input (or EOF); source is empty; chain the input and drop back into", silent=[ 'P-ACT' ] ),
+    V( 'pathsyntax-index-moved-to-end', CLIENT, "if symbolic and element is not None:\n # An index on a preceding (non-final) component stays with that component\n symbolic += \"[%d]\" % ( element )\n element = None\n symbolic +=", "symbolic       +=", fires=[ 'T-PATHSYNTAX' ], why='defect W' ),
+    V( 'pathsyntax-index-in-place', CLIENT, "elif 'element' in seg:\n element = seg['element']", "elif 'element' in seg and symbolic and count is None:\n                symbolic       += '[%d]' % seg['element']\n            elif 'element' in seg:\n                element		= seg['element']", silent=[ 'T-PATHSYNTAX' ] ),
     V( 'pathsyntax-numeric-separator', CLIENT, "path = symbolic if symbolic else ('@' + '/'.join( numeric ))", "path			= symbolic if symbolic else ('@' + ':'.join( numeric ))", fires=[ 'T-PATHSYNTAX' ] ),
     V( 'reply-converting-handler', LOGIX, "log.error( \"EtherNet/IP CIP error %s\\n%s\", where,\n ( '' if log.getEffectiveLevel() >= logging.NORMAL\n else ''.join( traceback.format_exception( *sys.exc_info() ))))\n raise", "log.error( \"EtherNet/IP CIP error %s\", where )\n        data.response		= dotdict( data.request )\n        data.response.enip	= dotdict( data.request.get( 'enip', {} ))\n        data.response.enip.status= 0x01\n        return True", silent=[ 'E-REPLY' ], why='a status-converting handler repairs known finding M' ),
     V( 'chain-stripped-block', TNET, "source.chain( msg )", "msg			= msg.lstrip( b'\\n' )\n                source.chain( msg )", fires=[ 'P-CHAIN' ] ),
@@ -198,6 +213,13 @@ VARIANTS = [
     V( 'ncp-large-before-decoding', DEFAULTS, "parameters = self.decoding\n parameters.large = large\n connection = Connection( **parameters )\n self._NCP = connection.encoding\n self._large = large", "self._large		= large\n            connection		= Connection( **self.decoding )\n            self._NCP		= connection.encoding", fires=[ 'K-NCPSTATE' ] ),
     V( 'ncp-only-large-stored', DEFAULTS, "self._NCP = connection.encoding\n self._large = large", "self._large		= large", fires=[ 'K-NCPSTATE' ] ),
     V( 'pathstop-ignores-explicit-attribute', DEVICE, "or ( attribute is not True #   or a default attribute is supplied\n and 'attribute' not in term ) #     and the term didn't contain a supplied one", "or attribute is not True", fires=[ 'D-PATHSTOP' ] ),
+    V( 'pathstop-skips-symbolic', DEVICE, "if ( 'symbolic' not in term # A symbolic term names a Tag: resolve it, or fail\n and result['class'] is not None", "if ( result['class'] is not None", fires=[ 'D-PATHSTOP' ], why='defect AC' ),
+    V( 'pathstop-break-hides-later-symbolic', DEVICE, "continue # All desired terms specified; done! (ie. ignore subsequent 'element')", "break # All desired terms specified; done! (ie. ignore subsequent 'element')", fires=[ 'D-PATHSTOP' ], why='defect AC' ),
+    V( 'retag-old-attribute-stored-back', LOGIX, "instance.attribute[str(att)] \\\n = val['attribute']", "instance.attribute[str(att)] = attribute", fires=[ 'T-RETAG' ], why='defect AD' ),
+    V( 'retag-dotted-form', LOGIX, "instance.attribute[str(att)] \\\n = val['attribute']", "instance.attribute[str(att)] = val.attribute", silent=[ 'T-RETAG' ] ),
+    V( 'reserved-level-unchecked', DOT, "if mine in self.__invalid_keys__ or mine.startswith( '__' ):\n # Neither as a value, nor as a (newly created) level\n raise KeyError( \"A dotdict cannot support insertion of item/attribute with name {!r}\".format( mine ))\n if rest:", "if not rest and ( mine in self.__invalid_keys__ or mine.startswith( '__' )):\n            raise KeyError( \"A dotdict cannot support insertion of item/attribute with name {!r}\".format( mine ))\n        if rest:", fires=[ 'T-RESERVED' ], why='defect AF' ),
+    V( 'regex-dead-target-expanded', AUTO, "if states.get( nxt ) is None and states[pre].get( True ) is None:\n # Into a \"dead\" state, and no (live) wildcard to be told apart from at a\n # later symbol: reject at the first encoded symbol, consuming none of them.\n xformed = xformed[:1]", "pass", fires=[ 'X-FROMREGEX' ], why='defect AG' ),
+    V( 'regex-dead-target-via-local', AUTO, "if states.get( nxt ) is None and states[pre].get( True ) is None:", "deadend		= nxt not in states\n                    if deadend and states[pre].get( True ) is None:", silent=[ 'X-FROMREGEX' ] ),
     V( 'pathstop-equivalent', DEVICE, "or not attribute #   or no Attribute desired (must return None)", "or attribute in ( False, None, 0 ) or not attribute", silent=[ 'D-PATHSTOP' ] ),
     V( 'keypass-normalised', MAIN, "def __setitem__( self, key, value ):\n super( Attribute_print, self ).__setitem__( key, value )", "def __setitem__( self, key, value ):\n            if isinstance( key, slice ):\n                key	= slice( *key.indices( len( self )))\n            super( Attribute_print, self ).__setitem__( key, value )", fires=[ 'K-KEYPASS' ] ),
     V( 'route-checks-outside-try', UCMM, "rsp,ela = client.await_response( conn, timeout=timeout )\n assert rsp, \\", "rsp,ela	= client.await_response( conn, timeout=timeout )\n                                assert True, \\", fires=[ 'P-ROUTE' ] ),
